@@ -1,10 +1,10 @@
 \* C21 leg A (concurrent calls), thorough: private generators (the code); 2 concurrent calls, tenants {1,2},
-\* layouts (2), (3), (1,1), (2,2); <= 2 picks per zone; every PRF with values 1..3
+\* layouts (2), (3), (1,1), (2,2); <= 2 picks per zone; every PRF with values 1..2
 SPECIFICATION Spec
 CONSTANTS SharedGen = FALSE
           MaxTake = 2
           MaxEndpoints = 4
-          MaxV = 3
+          MaxV = 2
           Procs = {1, 2}
           TenantIds = {1, 2}
 INVARIANT C21_ConcStable
